@@ -247,6 +247,21 @@ def _sparse(ctx):
     return True
 
 
+def _unnamed_sources(ctx):
+    if ctx["fn"] not in DSFUNCS:
+        return False
+    ctx["unnamed"] = True
+    return True
+
+
+def _ftconfig(ctx):
+    if not accepts(ctx["fn"], "ftConfig"):
+        return False
+    # an options object owned by the caller
+    ctx["opts"]["ftConfig"] = {"fontTools.otlLib.optimize.gpos:COMPRESSION_LEVEL": 9}
+    return True
+
+
 def _rules(ctx):
     if ctx["fn"] not in DSFUNCS:
         return False
@@ -331,6 +346,8 @@ INGREDIENTS = {
     "variableFeatures-off": _opt("variableFeatures", False, only=VAR_FUNCS),
     "sparse-layer": _sparse,
     "rules": _rules,
+    "unnamed-sources": _unnamed_sources,
+    "ftConfig": _ftconfig,
     "bad-features": _badfea,
     "negative-advance": _negadv,
     "vertical": _vertical,
@@ -411,7 +428,7 @@ def _scribble_mapping(m):
 def make_context(fn, ingr):
     nm = 1 if fn in STATIC else 2
     ctx = {"fn": fn, "specs": [base_spec(i) for i in range(nm)], "opts": {}, "dslib": {},
-           "filter_objs": [], "sparse": False, "rules": None}
+           "filter_objs": [], "sparse": False, "rules": None, "unnamed": False}
     applied = []
     for name in ingr:
         if INGREDIENTS[name](ctx):
@@ -437,10 +454,20 @@ def build_sources(ctx, module):
                            "location": {"Weight": 550}, "name": "mid"})
     ds = B.build_designspace([{"name": "Weight", "tag": "wght", "min": 400, "default": 400, "max": 700}],
                              sources, rules=ctx["rules"], lib=ctx["dslib"], module=module)
+    if ctx.get("unnamed"):
+        for s_ in ds.sources:
+            s_.name = None  # valid for a designspace built in memory
     return {"ds": ds}
 
 
-def owned_snapshot(src):
+def owned_snapshot(src, ctx=None):
+    snap = _owned_snapshot(src)
+    if ctx is not None and "ftConfig" in ctx["opts"]:
+        snap["options"] = {"ftConfig": S.plain(ctx["opts"]["ftConfig"])}
+    return snap
+
+
+def _owned_snapshot(src):
     if "ufo" in src:
         return {"ufo": S.font_snapshot(src["ufo"])}
     if "ufos" in src:
@@ -569,7 +596,7 @@ class C07(Property):
 def execute(fn0, module, ingr, calls):
     ctx = make_context(fn0, ingr)
     src = build_sources(ctx, module)
-    before = owned_snapshot(src)
+    before = owned_snapshot(src, ctx)
     outcome, n, found = [], 0, {}
     for i, fn in enumerate(calls):
         c2 = ctx
@@ -585,7 +612,7 @@ def execute(fn0, module, ingr, calls):
             res = type(e).__name__
         n += 1
         outcome.append(res)
-        after = owned_snapshot(src)
+        after = owned_snapshot(src, ctx)
         if after != before:
             d = S.diff(before, after, limit=60)
             for p, x, y in d:
